@@ -501,3 +501,11 @@ func loadedField(v ssa.Value) (*types.Named, string, ssa.Value, bool) {
 	}
 	return nil, "", nil, false
 }
+
+func structOf(n *types.Named) *types.Struct {
+	if n == nil {
+		return nil
+	}
+	s, _ := n.Underlying().(*types.Struct)
+	return s
+}
